@@ -11,6 +11,8 @@ from ..oracle import CODES9
 from .. import hx
 
 VALS = [True, False, 0, 1, -2, 0.5, None]
+# non-zero is non-zero at every magnitude, and both zeros are zero (sampled tuples, NOT/IF, IFS conditions)
+RARE = [1e-16, -1e-16, 2.220446049250313e-16, 5e-324, -1e-300, 6.6e-34, 1e-9, 1e308, -1e308, 2 ** 70, -(2 ** 70), 0.0, -0.0, 1e-17 + 0.0, 10 ** 30]
 
 
 def tv(x):
@@ -56,6 +58,8 @@ class Check(FormulaCheck):
         """render fn(...) with the tuple regrouped: separate args, nested host lists, array literals"""
         args = list(tup)
         mode = rnd.choice(['flat', 'hostlist', 'nestedlist', 'literal'])
+        if mode == 'literal' and any(x not in VALS for x in args):
+            mode = 'flat'       # only the seven core values are written as literals
         if mode == 'hostlist' and len(args) >= 1:
             self.e.bind(v_a=args)
             return '%s(v_a)' % fn, mode
@@ -81,6 +85,7 @@ class Check(FormulaCheck):
             for L in (1, 2, 3):
                 tuples += list(itertools.product(VALS, repeat=L))
         tuples += [tuple(rnd.choice(VALS) for _ in range(rnd.randint(4, 6))) for _ in range(spec['sampled'])]
+        tuples += [tuple(rnd.choice(RARE) if rnd.random() < 0.5 else rnd.choice(VALS) for _ in range(rnd.randint(1, 4))) for _ in range(spec['sampled'] // 4)]
         for tup in tuples:
             t = [tv(x) for x in tup]
             for fn, exp in (('AND', all(t)), ('OR', any(t)), ('XOR', sum(t) % 2 == 1)):
@@ -90,7 +95,7 @@ class Check(FormulaCheck):
                 rec.nt((fn, tup, mode))
                 rec.cov('grouping', mode)
         rec.count('tuples_exhaustive_upto3', 7 + 49 + 343 if spec['i'] == 0 else 0)
-        for x in VALS:
+        for x in VALS + RARE:
             g = self.ev('NOT(v_x)', v_x=x)
             self.expect('C12/NOT', g is (not tv(x)), arg=x, got=g)
             g = self.ev('IF(v_x,"t","f")', v_x=x)
@@ -145,7 +150,7 @@ class Check(FormulaCheck):
         L = 'abcde'
         for _ in range(spec['n']):
             n = rnd.randint(1, 5)
-            conds = [rnd.choice(VALS) for _ in range(n)]
+            conds = [rnd.choice(VALS) if rnd.random() < 0.85 else rnd.choice(RARE) for _ in range(n)]
             res = [rnd.randint(10, 99) for _ in range(n)]
             for i, (c, r) in enumerate(zip(conds, res)):
                 self.e.bind(**{'c_' + L[i]: c, 'r_' + L[i]: r})
